@@ -55,15 +55,18 @@ type (
 
 const BestCompression = "bestCompression"
 
-var defaultCompressSrvList = NewServices([]CompressOption{
-	{
-		Name: BestCompression,
-		Levels: map[string]int{
-			// -1则会选择默认的压缩级别
-			"br":   -1,
-			"gzip": gzip.BestCompression,
-		},
+// defaultBestCompressionOption the default option of best compression
+var defaultBestCompressionOption = CompressOption{
+	Name: BestCompression,
+	Levels: map[string]int{
+		// -1则会选择默认的压缩级别
+		"br":   -1,
+		"gzip": gzip.BestCompression,
 	},
+}
+
+var defaultCompressSrvList = NewServices([]CompressOption{
+	defaultBestCompressionOption,
 })
 var defaultCompressSrv = NewService()
 var notSupportedEncoding = errors.New("not supported encoding")
@@ -134,7 +137,19 @@ func convertConfigs(configs []config.CompressConfig) []CompressOption {
 
 // Reset reset default compress services
 func Reset(configs []config.CompressConfig) {
-	defaultCompressSrvList.Reset(convertConfigs(configs))
+	opts := convertConfigs(configs)
+	// 如果配置中没有覆盖bestCompression，则恢复为默认值，
+	// 否则之前覆盖bestCompression的配置被删除后仍然生效(与重启后的表现不一致)
+	overrideBestCompression := false
+	for _, opt := range opts {
+		if opt.Name == BestCompression {
+			overrideBestCompression = true
+		}
+	}
+	if !overrideBestCompression {
+		opts = append(opts, defaultBestCompressionOption)
+	}
+	defaultCompressSrvList.Reset(opts)
 }
 
 // Get get default compress service
